@@ -300,7 +300,7 @@ def check_msin_compose(ctx, rule="TAB-MSIN"):
         return None
 
     eng.on_call = on_call
-    outs = eng.call_path(p, eng.symbolic_args(b))
+    outs = eng.call_path(p, eng.symbolic_args(b, names=["self"]))
     ok = False
     for st, rv in outs:
         if isinstance(rv, Cont) and rv.segs and rv.segs[0][0] == "num" and rv.segs[0][1] == 1:
